@@ -215,7 +215,19 @@ func c12Check(c c12Case) (why string, ran int, skip string) {
 
 // pair rewrites: each entry is a list of statement lists that must end with the same outcome
 func c12Pairs(t *rapid.T, g *gen.G) (groups [][][]string, label string) {
-	switch rapid.IntRange(0, 3).Draw(t, "pair") {
+	switch rapid.IntRange(0, 4).Draw(t, "pair") {
+	case 4:
+		// the same sum spelled directly and through a temporary, observed by a type-sensitive use
+		e := g.ExprOf("int", rapid.IntRange(0, 2).Draw(t, "d"))
+		k := rapid.SampledFrom([]string{"1.0", "1", "2", "0.5", "2.0"}).Draw(t, "k")
+		use := rapid.SampledFrom([]string{"zzx / 3", "[zzx / 2, zzx * 3]", "zzx % 2", "[1, 2, 3][zzx & 1]", "toa(zzx / 4)"}).Draw(t, "use")
+		return [][][]string{
+			{{"zzx = " + e, "zzx = zzx + " + k, use}},
+			{{"zzx = " + e, "zzx = " + k + " + zzx", use}},
+			{{"zzx = " + e, "zzt = zzx", "zzx = zzt + " + k, use}},
+			{{"zzwrap = () -> {\nzzx = " + e + "\nzzx = zzx + " + k + "\n" + use + "\n}", "zzwrap()"}},
+			{{"zzwrap = (zzx) -> {\nzzx = " + k + " + zzx\n" + use + "\n}", "zzwrap(" + e + ")"}},
+		}, "increment-typed"
 	case 0:
 		e := g.ExprOf("int", rapid.IntRange(0, 2).Draw(t, "d"))
 		return [][][]string{
@@ -245,10 +257,12 @@ func c12Pairs(t *rapid.T, g *gen.G) (groups [][][]string, label string) {
 		c := g.ExprOf("bool", rapid.IntRange(0, 2).Draw(t, "d"))
 		a, _ := g.Expr(1)
 		b, _ := g.Expr(1)
+		// (the condition goes through a list, not an assignment: a generated function may
+		// return nothing, and assigning nil is an error of its own)
 		return [][][]string{
 			{{"if !(" + c + ") {\n" + a + "\n} else {\n" + b + "\n}"}},
 			{{"if " + c + " {\n" + b + "\n} else {\n" + a + "\n}"}},
-			{{"zzc = " + c, "if !zzc {\n" + a + "\n} else {\n" + b + "\n}"}},
+			{{"zzc = [" + c + "]", "if !zzc[0] {\n" + a + "\n} else {\n" + b + "\n}"}},
 			{{"zzwrap = () -> if !(" + c + ") {\n" + a + "\n} else {\n" + b + "\n}", "zzwrap()"}},
 		}, "negated-if"
 	default:
